@@ -25,7 +25,8 @@ SPEC = dict(
          'Further seeds: a publications file with a large unknown record, request PDUs with integers beyond 32 bits; after every failed call the error trace is rendered through KSI_ERR_toString, the logger (two levels) and KSI_ERR_statusDump. '
          'A publications file of more than 65535 bytes (records repeated) is offered as it is to the entry point and its follow-ups (look-ups, refused serialization, verification, release). '
          'Seed: a publications file with a SHA2-512 publication record (longest rendering). '
-         'Metadata fields of every link read through one receiving variable that is not cleared between the getters; seed with an empty publication reference string.',
+         'Metadata fields of every link read through one receiving variable that is not cleared between the getters; seed with an empty publication reference string. '
+         'A publication record of the file is copied, the copy released and two hashes created: the record renders as before.',
     bounds=dict(
         quick='(i) 11 binary entry points x {all strings of length <= 2 over all 256 bytes, all strings of length <= 5 over the structural alphabet} x {no log, debug log}; '
               '(ii) 13 seeds (2 reference signatures, the 10-byte signature whose input hash is a zero-length imprint at the end, 6 reference PDUs v1/v2 incl. error and configuration, 2 sample signatures, 1 nested TLV sample, 1 publications file) x '
